@@ -21,6 +21,7 @@ RULE = (
     "real library, the edges section is read back and compared with the curve the user described (circle model for "
     "angle/origin arcs, polyline for spline/polyLine); every (kind, position) also on an operation that is inverted or mirrored "
     "as a whole after its edges were given. non-trivial = a direction-dependent or degenerate edge kind, or a duplicate"
+    " Kind oncurve_neg: vertices at parameters -1 and 1 of an analytic curve over (-1.3, 1.4)."
 )
 ASSUMPTIONS = [
     "an edge attached as face.add_edge(i, data) describes the curve from face point i to point i+1 (side edge i: bottom i to top i)",
